@@ -8,6 +8,7 @@ import (
 	"go/constant"
 	"go/types"
 	"sort"
+	"strings"
 
 	"golang.org/x/tools/go/ssa"
 )
@@ -169,6 +170,21 @@ func reachableFrom(p *Prog, roots []*ssa.Function, stop func(*ssa.Function) bool
 	seen := map[*ssa.Function]bool{}
 	var walk func(fn *ssa.Function)
 	walk = func(fn *ssa.Function) {
+		if fn != nil && !seen[fn] && fn.Blocks != nil && (strings.HasSuffix(fn.Name(), "$bound") || strings.HasSuffix(fn.Name(), "$thunk")) {
+			// a method value / method expression: the synthetic wrapper stands for the method it calls
+			seen[fn] = true
+			for _, b := range fn.Blocks {
+				for _, in := range b.Instrs {
+					if c, ok := in.(ssa.CallInstruction); ok {
+						for _, g := range p.ModCallees(c) {
+							walk(g)
+						}
+					}
+				}
+			}
+			delete(seen, fn)
+			return
+		}
 		if fn == nil || seen[fn] || !p.InModule(fn) || fn.Blocks == nil {
 			return
 		}
